@@ -49,7 +49,7 @@ func runC01(p *Program, r *Result) {
 	uw := unwraps[0]
 	recv := short(tb.Term(uw.Common().Value).String())
 	loops := loopOver(dec, func(v ssa.Value) bool { return v == dec.Params[1] })
-	okOrder := recv == "Elem(P2, (RangeIdx() + 1))" && len(loops) == 1 && loops[0].inLoop(uw.Block())
+	okOrder := recv == "Elem(P2, (RangeIdx#1 + 1))" && len(loops) == 1 && loops[0].inLoop(uw.Block())
 	r.Check(okOrder, dec.String(), "call:Unwrap:receiver", r.pos(uw), "identities[i] in an ascending range loop over all identities",
 		"Unwrap is invoked on "+recv+", not on identities[i] of an ascending loop over the identities parameter")
 	// R01.1b: what is offered
